@@ -108,6 +108,9 @@ def check(ctx):
         for o, a in produce(ctx, "d6", ["-mode", "d6", "-seed", ctx.seed] + full, shards):
             runner.run_job(ctx, _job(ctx, "d6", o, a))
             paths.append(o)
+        # whole DHCPv6 chains of real plugins (Conv6): ADVERTISE for SOLICIT, REPLY otherwise, nothing for DECLINE
+        from . import fam_conv
+        extra.update(fam_conv.run6(ctx))
         extra["replies"] = _count(paths, lambda e: e["ev"] == "d6" and e["out"]["sent"])
         extra["relayed_replies"] = _count(paths, lambda e: e["ev"] == "d6" and e["out"]["sent"] and e["in"]["depth"] > 0)
 
@@ -187,6 +190,9 @@ def check(ctx):
 
 def replay(ctx, path):
     meta = json.load(open(os.path.join(path, "meta.json")))
+    if meta.get("family") == "conv6":
+        from . import fam_conv
+        return fam_conv.replay6(ctx, path)
     args = meta.get("rerun_args")
     if not args:
         raise Infra("replay meta has no rerun_args")
